@@ -218,7 +218,7 @@ def selftest():
             assert E.dbl(P) == E.add(P, P)
             assert E.mul(N, P) is None            # Lagrange
             assert N % E.order_of(P) == 0
-        for _ in range(300):
+        for _ in range(120):
             P, Q, R = rnd.choice(allp), rnd.choice(allp), rnd.choice(allp)
             S = E.add(P, Q)
             assert E.is_on(S) and S == E.add(Q, P)
@@ -238,7 +238,7 @@ def selftest():
                 E = CurveP(p, a, b)
                 if not E.is_nonsingular():
                     continue
-                if rnd.random() < 0.15 or (a, b) in ((1, 0), (p - 1, 0)):
+                if rnd.random() < 0.08 or (a, b) in ((1, 0), (p - 1, 0)):
                     N = check_group(E, E.points())
                     assert abs(N - (p + 1)) <= 2 * p ** 0.5   # Hasse
     # the classical example y^2 = x^3 + 2x + 2 over GF(17): cyclic of order 19
@@ -259,7 +259,7 @@ def selftest():
     for m, poly in ((3, 0b1011), (4, 0b10011), (5, 0b100101)):
         for a in range(1 << m):
             for b in range(1, 1 << m):
-                if rnd.random() < 0.2:
+                if rnd.random() < 0.05:
                     E = Curve2(m, poly, a, b)
                     N = check_group(E, E.points())
                     assert abs(N - ((1 << m) + 1)) <= 2 * (1 << m) ** 0.5
